@@ -79,7 +79,7 @@ def vm_failure_kind(e):
 
 
 def explore_vm(linked, prog, fname, inst, label):
-    res = dict(paths=0, queries=0, unsat=0, sat=0, undecided=0, cut=0, violations=[], errors=[], notes=[], solver_time=0.0, defined=0)
+    res = dict(paths=0, queries=0, unsat=0, sat=0, undecided=0, cut=0, violations=[], errors=[], notes=[], solver_time=0.0, defined=0, completed=0, feasibility=0)
     f = [x for x in prog.funcs if x.name == fname and x.exported]
     if not f:
         res["notes"].append("no exported entry point named f")
@@ -124,8 +124,7 @@ def explore_vm(linked, prog, fname, inst, label):
         if e is None or vm_failure_kind(e) == "defined":
             # the claim for this path: no internal error for any input on it -- the path ran to completion (or to a defined failure)
             # for every input satisfying pc, by construction of the exploration
-            res["queries"] += 1
-            res["unsat"] += 1
+            res["completed"] += 1
             if e is not None:
                 res["defined"] += 1
             continue
@@ -149,6 +148,8 @@ def explore_vm(linked, prog, fname, inst, label):
             res["notes"].append(f"VM failure {type(e).__name__}: {str(e)[:80]} on a symbolic path did not reproduce concretely with {vals}")
             res["undecided"] += 1
     res["solver_time"] = eng.stats()["solver_time_s"]
+    res["feasibility"] = eng.stats()["feasibility_queries"]
+    res["queries"] += res["feasibility"]       # solver calls: branch feasibility during exploration + witness queries
     return res
 
 
@@ -157,7 +158,8 @@ def run_instance(inst):
     res = dict(paths=0, queries=0, unsat=0, sat=0, undecided=0, cut=0, violations=[], errors=[], nontrivial=False, known=[], solver_time=0.0)
     res["key"] = src
     res["funcs"] = FUNCS
-    counters = dict(candidates=1, rejected=0, frontend_crash=0, accepted=0, backend_failures=0, vm_paths=0, vm_defined_failures=0)
+    counters = dict(candidates=1, rejected=0, frontend_crash=0, accepted=0, backend_failures=0, vm_paths=0, vm_paths_completed_without_internal_error=0, vm_defined_failures=0,
+                    branch_feasibility_queries=0)
     st0, r0 = stage_compile(src, False)
     if st0 == "rejected":
         counters["rejected"] = 1
@@ -197,7 +199,9 @@ def run_instance(inst):
             res.setdefault("notes", []).extend(v["notes"])
             counters["vm_paths"] += v["paths"]
             counters["vm_defined_failures"] += v["defined"]
-            if v["unsat"]:
+            counters["vm_paths_completed_without_internal_error"] += v["completed"]
+            counters["branch_feasibility_queries"] += v["feasibility"]
+            if v["completed"]:
                 res["nontrivial"] = True
     attribute(res, inst)
     res["counters"] = counters
